@@ -522,12 +522,15 @@ std::string treeToMathml(const J &t)
 {
     std::string op = t["op"].str();
     if (op == "ci") {
-        return "<ci>" + t["name"].str() + "</ci>";
+        return "<ci>" + std::string(t["form"].str("plain") == "comment" ? "<!-- c -->" : "") + t["name"].str() + "</ci>";
     }
     if (op == "cn") {
         std::string form = t["form"].str("plain");
         if (form == "enot") {
             return "<cn cellml:units=\"dimensionless\" type=\"e-notation\">" + num(t) + "<sep/>0</cn>";
+        }
+        if (form == "comment") {
+            return "<cn cellml:units=\"dimensionless\"><!-- c -->" + num(t) + "</cn>";
         }
         std::string suffix = form == "upperE" ? "E0" : (form == "lowerE" ? "e0" : (form == "plusExp" ? "e+0" : (form == "dot" && num(t).find('.') == std::string::npos ? "." : "")));
         return "<cn cellml:units=\"dimensionless\">" + num(t) + suffix + "</cn>";
